@@ -307,6 +307,9 @@ fn direct(ctx: &Ctx) {
             }
             let case = json!({"layer": "direct", "nuts": nuts, "n": n, "n_collect": n_collect, "n_discard": n_discard, "timer": timer, "schedule": prefix});
             check_exec(ctx, &cfg, &want, &ex, &case);
+            if !prefix.is_empty() {
+                ctx.sample_tagged("direct schedule", || json!({"input": case.clone(), "trace(thread@point)": ex.trace.clone(), "reporter_states(n_finished,next_active,active...)": ex.states.clone()}));
+            }
             traces.insert(hash_of(&ex.trace));
             for s in ex.states.iter() {
                 rstates.insert(hash_of(s));
@@ -569,6 +572,9 @@ fn conform_path(ctx: &Ctx, n: usize, masks: &[u32]) -> bool {
     }
     let want = expected_for(&cfg);
     check_exec(ctx, &cfg, &want, &ex, &case);
+    if masks.len() >= 2 && n >= 3 {
+        ctx.sample_tagged("conformance replay", || json!({"input": case.clone(), "script": script.clone(), "real_reporter_states": ex.states.clone()}));
+    }
     true
 }
 
@@ -1008,8 +1014,6 @@ pub fn run(ctx: &Ctx) {
         model_and_conformance(ctx);
         lap("model");
     }
-    ctx.sample(json!({"direct": {"chains": 2, "total": 4, "schedule": [0, 0, 2, 1], "meaning": "indices into the enabled set / timer choice at each decision; 0 = default"}}));
-    ctx.sample(json!({"conformance": {"n": 6, "arrival_masks": [3, 0, 28, 1], "meaning": "bit i set = the chain in progress-bar slot i has its final message visible in that reporter iteration"}}));
     ctx.assume("sequentially consistent interleavings at hook granularity; real time is replaced by choices (sleep = yield, 1 s stats timer = binary choice); indicatif draws to a hidden target (no TTY)");
     ctx.assume("arrival-order reduction: a worker's only shared action is send on its own channel, so the iteration at which its final message first becomes visible is a complete canonical form of the schedule");
 }
